@@ -2,7 +2,10 @@
 
 package main
 
-import "fmt"
+import (
+	"fmt"
+	"strings"
+)
 
 var thresholds = []float64{0.7, 0.75, 0.8, 0.9, 0.95, 0.99, 1.0}
 
@@ -15,13 +18,15 @@ func familyCase(r *rng) int {
 	case "planted": // C01
 		return []int{0, 1, 1, 1, 3}[r.intn(5)]
 	case "edited": // C02
-		return []int{2, 2, 4, 5, 5, 3}[r.intn(6)]
+		return []int{2, 2, 4, 5, 5, 3, 10, 11, 9}[r.intn(9)]
 	case "shifted": // C07
-		return []int{1, 5, 5, 2}[r.intn(4)]
+		return []int{1, 5, 5, 2, 10, 8}[r.intn(6)]
+	case "determinism": // C04
+		return []int{0, 2, 3, 8, 8, 9, 11, 11, 5}[r.intn(9)]
 	case "hostile": // C10
 		return []int{6, 7, 7, 4}[r.intn(4)]
 	}
-	return r.intn(8)
+	return r.intn(12)
 }
 
 func genericInputs(r *rng, docs []corpusDoc, n int) []input {
@@ -49,6 +54,31 @@ func genericInputs(r *rng, docs []corpusDoc, n int) []input {
 			ins = append(ins, input{"synth", synthText(r, 5+r.intn(60))})
 		case 7:
 			ins = append(ins, input{"mut:" + d.name, mutate(r, d.text)})
+		case 8: // a contiguous partial copy next to a slightly changed full copy
+			ws := strings.Fields(string(d.text))
+			a := r.intn(len(ws)/2 + 1)
+			b := a + len(ws)*(30+r.intn(35))/100
+			if b > len(ws) {
+				b = len(ws)
+			}
+			full := editWords(r, d.text, 1+r.intn(3))
+			parts := []string{strings.Join(ws[a:b], " "), oovBlock(r, 2+r.intn(6), 1), string(full)}
+			if r.chance(1, 2) {
+				parts[0], parts[2] = parts[2], parts[0]
+			}
+			ins = append(ins, input{"partial+full:" + d.name, []byte(strings.Join(parts, "\n"))})
+		case 9: // two edited documents, the first with more edits
+			d2 := docs[r.intn(len(docs))]
+			ins = append(ins, input{"two-edited:" + d.name + "+" + d2.name, []byte(string(editWords(r, d.text, 2+r.intn(3))) + "\n" + oovBlock(r, 3, 1) + "\n" + string(editWords(r, d2.text, 1)))})
+		case 10:
+			k := []int{5, 5, 6, 10, 4, 12}[r.intn(6)]
+			x := string(evenlySub(r, d.text, k, r.chance(1, 2)))
+			if r.chance(1, 2) {
+				x = oovBlock(r, 3+r.intn(20), 2) + "\n" + x
+			}
+			ins = append(ins, input{fmt.Sprintf("every-%dth-word:%s", k, d.name), []byte(x)})
+		case 11:
+			ins = append(ins, input{"phrase-strip:" + d.name, phraseStrip(r, d.text)})
 		}
 	}
 	return ins
